@@ -16,6 +16,13 @@
  *                              write(): every n-th write to such a pipe transfers only half of the bytes (>= 1)
  *   VERIF_ENV_SPAWN_FAIL_AT=<k> + VERIF_ENV_SPAWN_ERRNO=<e>
  *                              posix_spawn()/posix_spawnp(): the k-th call fails with errno e (EAGAIN, ENOMEM)
+ *   VERIF_ENV_IO_PREFIX=<dir>[:<dir>...]  "input objects" are paths below these directories (relative paths count when the working
+ *                              directory is below it); everything else (/proc, /sys, shared libraries) is never touched
+ *   VERIF_ENV_READ_MAX=<n>     read(): at most n bytes per call on a descriptor opened read-only on an input object (short reads)
+ *   VERIF_ENV_READ_EINTR_EVERY=<k>  read(): every k-th such call fails once with EINTR (std retries)
+ *   VERIF_ENV_IO_FAIL_AT=<k> + VERIF_ENV_IO_ERRNO=<e>
+ *                              the k-th operation on an input object (open64 read-only, opendir, stat64/lstat64/fstatat64/statx,
+ *                              read, readdir64; 1-based, in call order) fails with errno e
  *   VERIF_ENV_LOG=<path>       append one line per interposed call class with counts at exit
  */
 #define _GNU_SOURCE
@@ -48,6 +55,178 @@ static int env_u64(const char *name, uint64_t *out) {
 
 static pthread_mutex_t lock = PTHREAD_MUTEX_INITIALIZER;
 static unsigned long n_getrandom, n_readdir, n_affinity, n_clock, n_dirs;
+
+/* ------------------------------------------------------------ input faults */
+#include <fcntl.h>
+#include <stdarg.h>
+#include <sys/stat.h>
+static int io_init_done = 0;
+static const char *io_prefix; /* colon-separated list of directories */
+static uint64_t io_read_max, io_eintr_every, io_fail_at, io_errno = 5;
+static unsigned long n_io_ops, n_io_faults, n_short_reads, n_read_eintr, n_input_reads;
+static unsigned char io_fd[4096];
+#define IO_MAXDIRS 256
+static DIR *io_dirs[IO_MAXDIRS];
+
+static void io_init(void) {
+    if (io_init_done) return;
+    pthread_mutex_lock(&lock);
+    if (!io_init_done) {
+        io_prefix = getenv("VERIF_ENV_IO_PREFIX");
+        if (io_prefix && !*io_prefix) io_prefix = NULL;
+        env_u64("VERIF_ENV_READ_MAX", &io_read_max);
+        env_u64("VERIF_ENV_READ_EINTR_EVERY", &io_eintr_every);
+        if (io_eintr_every == 1) io_eintr_every = 2; /* every read failing would be a livelock, not a fault */
+        env_u64("VERIF_ENV_IO_FAIL_AT", &io_fail_at);
+        env_u64("VERIF_ENV_IO_ERRNO", &io_errno);
+        io_init_done = 1;
+    }
+    pthread_mutex_unlock(&lock);
+}
+
+/* noinline + volatile: glibc declares the path arguments nonnull, and Rust's std probes statx with a NULL path */
+static __attribute__((noinline)) int io_is_input(const char *volatile path_in) {
+    const char *path = path_in;
+    if (!io_prefix || !path || !*path) return 0;
+    char cwd[4096];
+    const char *subject = path;
+    if (path[0] != '/') {
+        if (!getcwd(cwd, sizeof cwd)) return 0;
+        subject = cwd;
+    }
+    for (const char *p = io_prefix; *p;) {
+        const char *end = strchr(p, ':');
+        size_t len = end ? (size_t)(end - p) : strlen(p);
+        if (len > 0 && strncmp(subject, p, len) == 0) return 1;
+        p += len;
+        if (*p == ':') p++;
+    }
+    return 0;
+}
+
+/* one more operation on an input object: 0 = let it through, else the errno to fail with */
+static int io_op(void) {
+    unsigned long k = __sync_add_and_fetch(&n_io_ops, 1);
+    if (io_fail_at && k == io_fail_at) {
+        __sync_fetch_and_add(&n_io_faults, 1);
+        return (int)io_errno;
+    }
+    return 0;
+}
+
+int open64(const char *path, int flags, ...) {
+    static int (*real)(const char *, int, ...);
+    if (!real) real = dlsym(RTLD_NEXT, "open64");
+    mode_t mode = 0;
+    if (flags & (O_CREAT | O_TMPFILE)) {
+        va_list ap;
+        va_start(ap, flags);
+        mode = va_arg(ap, mode_t);
+        va_end(ap);
+    }
+    io_init();
+    int input = (flags & O_ACCMODE) == O_RDONLY && !(flags & O_DIRECTORY) && io_is_input(path);
+    if (input) {
+        int e = io_op();
+        if (e) { errno = e; return -1; }
+    }
+    int fd = real(path, flags, mode);
+    if (input && fd >= 0 && fd < (int)sizeof io_fd) io_fd[fd] = 1;
+    return fd;
+}
+
+int close(int fd) {
+    static int (*real)(int);
+    if (!real) real = dlsym(RTLD_NEXT, "close");
+    if (fd >= 0 && fd < (int)sizeof io_fd) io_fd[fd] = 0;
+    return real(fd);
+}
+
+ssize_t read(int fd, void *buf, size_t count) {
+    static ssize_t (*real)(int, void *, size_t);
+    if (!real) real = dlsym(RTLD_NEXT, "read");
+    if (fd >= 0 && fd < (int)sizeof io_fd && io_fd[fd] && count > 0) {
+        unsigned long k = __sync_add_and_fetch(&n_input_reads, 1);
+        int e = io_op();
+        if (e) { errno = e; return -1; }
+        if (io_eintr_every && k % io_eintr_every == 0) {
+            __sync_fetch_and_add(&n_read_eintr, 1);
+            errno = EINTR;
+            return -1;
+        }
+        if (io_read_max && count > io_read_max) {
+            __sync_fetch_and_add(&n_short_reads, 1);
+            count = (size_t)io_read_max;
+        }
+    }
+    return real(fd, buf, count);
+}
+
+DIR *opendir(const char *path) {
+    static DIR *(*real)(const char *);
+    if (!real) real = dlsym(RTLD_NEXT, "opendir");
+    io_init();
+    int input = io_is_input(path);
+    if (input) {
+        int e = io_op();
+        if (e) { errno = e; return NULL; }
+    }
+    DIR *d = real(path);
+    if (input && d) {
+        pthread_mutex_lock(&lock);
+        for (int i = 0; i < IO_MAXDIRS; i++)
+            if (!io_dirs[i]) { io_dirs[i] = d; break; }
+        pthread_mutex_unlock(&lock);
+    }
+    return d;
+}
+
+static int io_dir_tracked(DIR *d, int forget) {
+    for (int i = 0; i < IO_MAXDIRS; i++)
+        if (io_dirs[i] == d) {
+            if (forget) io_dirs[i] = NULL;
+            return 1;
+        }
+    return 0;
+}
+
+#define IO_STAT_FAULT(path)                         \
+    do {                                            \
+        io_init();                                  \
+        if (io_is_input(path)) {                    \
+            int e_ = io_op();                       \
+            if (e_) { errno = e_; return -1; }      \
+        }                                           \
+    } while (0)
+
+int stat64(const char *path, struct stat64 *st) {
+    static int (*real)(const char *, struct stat64 *);
+    if (!real) real = dlsym(RTLD_NEXT, "stat64");
+    IO_STAT_FAULT(path);
+    return real(path, st);
+}
+
+int lstat64(const char *path, struct stat64 *st) {
+    static int (*real)(const char *, struct stat64 *);
+    if (!real) real = dlsym(RTLD_NEXT, "lstat64");
+    IO_STAT_FAULT(path);
+    return real(path, st);
+}
+
+int fstatat64(int dirfd, const char *path, struct stat64 *st, int flags) {
+    static int (*real)(int, const char *, struct stat64 *, int);
+    if (!real) real = dlsym(RTLD_NEXT, "fstatat64");
+    IO_STAT_FAULT(path);
+    return real(dirfd, path, st, flags);
+}
+
+struct statx;
+int statx(int dirfd, const char *path, int flags, unsigned int mask, struct statx *buf) {
+    static int (*real)(int, const char *, int, unsigned int, struct statx *);
+    if (!real) real = dlsym(RTLD_NEXT, "statx");
+    IO_STAT_FAULT(path);
+    return real(dirfd, path, flags, mask, buf);
+}
 
 /* ---------------------------------------------------------------- getrandom */
 static uint64_t rnd_state;
@@ -140,6 +319,11 @@ static struct dirbuf *dir_get(DIR *d) {
 struct dirent64 *readdir64(DIR *d) {
     static struct dirent64 *(*real)(DIR *);
     if (!real) real = dlsym(RTLD_NEXT, "readdir64");
+    io_init();
+    if ((io_fail_at) && io_dir_tracked(d, 0)) {
+        int e = io_op();
+        if (e) { errno = e; return NULL; }
+    }
     pthread_mutex_lock(&lock);
     if (dir_mode < 0) dir_init();
     if (dir_mode == 0) {
@@ -162,6 +346,7 @@ int closedir(DIR *d) {
     static int (*real)(DIR *);
     if (!real) real = dlsym(RTLD_NEXT, "closedir");
     pthread_mutex_lock(&lock);
+    io_dir_tracked(d, 1);
     for (struct dirbuf **p = &dirs; *p; p = &(*p)->next) {
         if ((*p)->dir == d) {
             struct dirbuf *b = *p;
@@ -318,9 +503,9 @@ static void report(void) {
     if (!p) return;
     FILE *f = fopen(p, "a");
     if (!f) return;
-    fprintf(f, "pid=%d getrandom=%lu readdir=%lu dirs=%lu affinity=%lu clock=%lu pipewrites=%lu writefaults=%lu shortwrites=%lu spawns=%lu spawnfaults=%lu\n",
+    fprintf(f, "pid=%d getrandom=%lu readdir=%lu dirs=%lu affinity=%lu clock=%lu pipewrites=%lu writefaults=%lu shortwrites=%lu spawns=%lu spawnfaults=%lu ioops=%lu iofaults=%lu shortreads=%lu readeintr=%lu\n",
             (int)getpid(), n_getrandom, n_readdir, n_dirs, n_affinity, n_clock, n_pipe_writes, n_write_faults, n_short_writes,
-            n_spawns, n_spawn_faults);
+            n_spawns, n_spawn_faults, n_io_ops, n_io_faults, n_short_reads, n_read_eintr);
     fclose(f);
 }
 
